@@ -45,10 +45,17 @@ CFG = {
         "one case = one forced schedule (3-20 batches of calls; a batch = up to 2 concurrent lanes of non-blocking calls "
         "plus newly launched consumers) on a fresh queue of one of the six types, run on the real implementation and "
         "replayed in Coq; generator classes per type: random walk, park-close, park-add, drain-after-close, bound, "
-        "close-race, steal, tryclose (condition-variable queues) and random, resignal, park-push, collapse, full, "
-        "push-parked (PriQueue; a call held at the entry of its critical section through the hook); thorough tier additionally enumerates every sequence of 1..5 single-call batches per "
+        "close-race, steal, tryclose, add-close-burst (k>=2 parked, an add and Close back to back from one goroutine) "
+        "(condition-variable queues) and random, resignal, park-push, collapse, full, push-parked (PriQueue; a call "
+        "held at the entry of its critical section through the hook); plus one protocol-following stress case per type "
+        "and consumer count (CStress: consumers run the documented protocol - receive from WaitCh(), Pop until nil with "
+        "a varying number of extra polls / Pop in a loop - and the producer adds the next item the moment the previous "
+        "one was taken, 10^4..10^7 rounds; a lost wake-up is reported only on the positive observation `item "
+        "outstanding + every consumer seen parked + channel not readable + no call in progress`, otherwise the run just "
+        "continues; budget ~2 s in the quick tier, 4 s per configuration thorough, 12 s per configuration in the "
+        "violation search); thorough tier additionally enumerates every sequence of 1..5 single-call batches per "
         "condition-variable type. Non-trivial = at some quiescent point at least one consumer was observed parked "
-        "(PriQueue: parked on WaitCh() or holding a token); distinct = distinct resolved traces"
+        "(PriQueue: parked on WaitCh() or holding a token; stress: at least one round); distinct = distinct resolved traces"
     ),
     "trusted": [
         "parked-goroutine detection: runtime.Stack(all) header wait reason `sync.Cond.Wait` with a frame of the queue's package (`select` inside main.c13WaitTok for PriQueue), matched to the consumer by goroutine id; flags are read before the snapshot",
